@@ -721,7 +721,19 @@ def bool_equivalent(conds, expected: ast.expr, atom_text=None) -> bool | None:
         if isinstance(e, ast.Compare) and len(e.ops) == 1 and isinstance(e.comparators[0], ast.Constant) and e.comparators[0].value is None and isinstance(e.ops[0], (ast.Is, ast.IsNot)):
             return f"{norm(e.left)} is not None", isinstance(e.ops[0], ast.IsNot)
         if isinstance(e, ast.Compare) and len(e.ops) == 1 and isinstance(e.ops[0], (ast.Eq, ast.NotEq)):
-            return f"{norm(e.left)} == {norm(e.comparators[0])}", isinstance(e.ops[0], ast.Eq)
+            a, b = sorted((norm(e.left), norm(e.comparators[0])))
+            return f"{a} == {b}", isinstance(e.ops[0], ast.Eq)
+        # order comparisons: one atom per operand pair and strictness, `a < b` is `b > a`, `a <= b` is `not a > b`
+        if isinstance(e, ast.Compare) and len(e.ops) == 1 and isinstance(e.ops[0], (ast.Lt, ast.Gt, ast.LtE, ast.GtE)):
+            a, b = norm(e.left), norm(e.comparators[0])
+            op = e.ops[0]
+            if isinstance(op, ast.Gt):
+                return f"{a} > {b}", True
+            if isinstance(op, ast.Lt):
+                return f"{b} > {a}", True
+            if isinstance(op, ast.LtE):
+                return f"{a} > {b}", False
+            return f"{b} > {a}", False  # a >= b  ==  not (b > a)
         return norm(e), True
 
     def ev(e, env):
@@ -1090,7 +1102,8 @@ def expand_named_conditions(func: ast.FunctionDef, keep=frozenset()) -> ast.Func
                 attr_store = any(isinstance(n, ast.Attribute) and isinstance(n.ctx, ast.Store) and norm(n) in attr_roots for x in rest for n in ast.walk(x))
                 loads_rest = sum(1 for x in rest for n in ast.walk(x) if isinstance(n, ast.Name) and n.id == name and isinstance(n.ctx, ast.Load))
                 loads_all = sum(1 for n in ast.walk(func) if isinstance(n, ast.Name) and n.id == name and isinstance(n.ctx, ast.Load))
-                if not rebound and not attr_store and loads_rest == loads_all and loads_all > 0:
+                callee_use = any(isinstance(c, ast.Call) and isinstance(c.func, ast.Name) and c.func.id == name for x in rest for c in ast.walk(x))
+                if not rebound and not attr_store and loads_rest == loads_all and loads_all > 0 and not callee_use:
                     val = st.value
 
                     class Sub(ast.NodeTransformer):
@@ -1360,6 +1373,10 @@ def inline_new_single_use_locals(func: ast.FunctionDef, keep=frozenset()) -> ast
                     if isinstance(par, ast.BoolOp) and cur is not par.values[0]:
                         bad = True
                     cur = par
+                # a value that is called (`cls = A if c else B; cls(x)`) stays a named callee
+                par_u = parents.get(id(use))
+                if isinstance(par_u, ast.Call) and par_u.func is use and not isinstance(st.value, (ast.Name, ast.Attribute)):
+                    bad = True
                 if bad:
                     continue
                 before = order[: order.index(use)]
